@@ -1,1 +1,87 @@
-// hooks for src/session.rs (none needed yet)
+// hooks for src/session.rs (private fields of Session)
+#![allow(dead_code, unused_imports)]
+use super::*;
+
+// Session::choose_piece_index is an ASSUMED contract in unit SESS (enumerate x3, Box<dyn Fn>, shuffle, sort_by: outside the
+// Verus subset; C13's function).  What C12 / C09 / C10 rely on is only `good_choice`: the answer is None or a piece the asking
+// peer advertised and the client does not own, and the manager state is unchanged.  This native check runs the REAL function
+// on every small table (BOUNDED: see the registry entry) and on a family of 11-piece tables that reaches the non-end-game side,
+// three times each (the function shuffles).  Bounded validation of an assumption, never counted as proved.
+#[cfg(all(test, rdest_verif))]
+mod native {
+    use super::*;
+
+    fn torrent(n: usize) -> Metainfo {
+        let mut t = format!("d8:announce3:url4:infod6:lengthi{}e4:name1:a12:piece lengthi1e6:pieces{}:", n, 20 * n).into_bytes();
+        t.extend(std::iter::repeat(7u8).take(20 * n));
+        t.extend_from_slice(b"ee");
+        Metainfo::from_bencode(&t).expect("test torrent")
+    }
+    fn status_of(code: usize) -> Status { match code { 0 => Status::Missing, 1 => Status::Reserved(1), _ => Status::Have } }
+
+    // one table: statuses, the advertised pieces of every peer; asks for each peer in turn
+    async fn run_table(n: usize, st: &Vec<Status>, adv: &Vec<Vec<bool>>) -> usize {
+        let mut s = Session::new(torrent(n), [1u8; PEER_ID_SIZE]);
+        s.pieces_status = st.clone();
+        for (k, pieces) in adv.iter().enumerate() {
+            let job = tokio::spawn(async {});
+            let mut p = Peer::new(None, n, job);
+            p.pieces = pieces.clone();
+            s.peers.insert(format!("10.0.0.{}:1", k), p);
+        }
+        let mut asked = 0;
+        for k in 0..adv.len() {
+            let addr = format!("10.0.0.{}:1", k);
+            for _ in 0..3 {
+                let r = s.choose_piece_index(&addr).await;
+                if let Some(i) = r {
+                    assert!(i < n, "index {} out of range ({} pieces)", i, n);
+                    assert!(s.peers[&addr].pieces[i], "piece {} chosen for a peer that did not advertise it; statuses {:?} advertised {:?}", i, st, adv);
+                    assert!(s.pieces_status[i] != Status::Have, "piece {} chosen although the client owns it; statuses {:?} advertised {:?}", i, st, adv);
+                }
+                assert!(&s.pieces_status == st, "choose_piece_index changed the piece statuses");
+                for (j, pieces) in adv.iter().enumerate() {
+                    let p = &s.peers[&format!("10.0.0.{}:1", j)];
+                    assert!(&p.pieces == pieces && p.piece_index.is_none() && p.am_choked && p.choked, "choose_piece_index changed a peer record");
+                }
+                asked += 1;
+            }
+        }
+        asked
+    }
+
+    #[test]
+    fn native_choose_piece_index_small_tables() {
+        let rt = tokio::runtime::Builder::new_current_thread().enable_all().build().unwrap();
+        let asked = rt.block_on(async {
+            let mut asked = 0usize;
+            // (a) exhaustive: 1..=3 pieces, every status vector over {Missing, Reserved(1), Have}, 1..=2 peers, every advertised set
+            let deep = std::env::var("RDEST_VERIF_TIER").map(|t| t == "thorough").unwrap_or(false);
+            for n in 1..=(if deep { 4usize } else { 3 }) {
+                for scode in 0..3usize.pow(n as u32) {
+                    let st: Vec<Status> = (0..n).map(|i| status_of(scode / 3usize.pow(i as u32) % 3)).collect();
+                    for peers in 1..=(if deep && n <= 3 { 3usize } else { 2 }) {
+                        for acode in 0..(1usize << (n * peers)) {
+                            let adv: Vec<Vec<bool>> = (0..peers).map(|k| (0..n).map(|i| acode >> (k * n + i) & 1 == 1).collect()).collect();
+                            asked += run_table(n, &st, &adv).await;
+                        }
+                    }
+                }
+            }
+            // (b) 11 pieces (>= END_GAME_LIMIT missing is reachable): status patterns x advertised patterns, 2 peers
+            let n = 11usize;
+            let mut sts: Vec<Vec<Status>> = vec![vec![Status::Missing; n]];
+            for i in 0..n { let mut v = vec![Status::Missing; n]; v[i] = Status::Reserved(1); sts.push(v); }
+            for i in 0..n { let mut v = vec![Status::Missing; n]; v[i] = Status::Have; sts.push(v); }
+            sts.push((0..n).map(|i| status_of(i % 3)).collect());
+            sts.push((0..n).map(|i| if i < 2 { Status::Missing } else { Status::Have }).collect());
+            let mut advs: Vec<Vec<bool>> = vec![vec![true; n], vec![false; n], (0..n).map(|i| i % 2 == 0).collect()];
+            for i in 0..n { let mut v = vec![false; n]; v[i] = true; advs.push(v); }
+            for st in sts.iter() { for a in advs.iter() { for b in advs.iter().take(4) {
+                asked += run_table(n, st, &vec![a.clone(), b.clone()]).await;
+            } } }
+            asked
+        });
+        assert!(asked > 10_000, "only {} calls made", asked);
+    }
+}
